@@ -53,7 +53,9 @@ def gen_history(rng, ids, n, T=None):
                           rng.random() < 0.5])
             tid += 1
         elif k < 0.75:
-            uid = rng.choice([i for i in range(0x80) if i not in known])
+            uid = rng.choice([i for i in range(0x80) if i not in known]) \
+                if rng.random() < 0.75 else \
+                rng.choice([0x80, 0xC8, 0x3FFF, 0x4000])
             sizes = [0, 1, 9, 100]
             if T is not None and T >= 2:
                 # whole packet (1-byte id + body) of exactly T-1, T, T+1
